@@ -5,6 +5,7 @@ import Hertz.Driver.C17u
 import Hertz.Driver.C17x
 import Hertz.Driver.C07
 import Hertz.Driver.H1
+import Hertz.Driver.C01Net
 import Hertz.Driver.C04
 import Hertz.Driver.C05
 import Hertz.Driver.C06
@@ -22,7 +23,7 @@ import Hertz.Driver.C19
 import Hertz.Driver.C20
 open Hertz.Driver
 
-def handlers : List Handler := [C17.handle, C17u.handle, C17x.handle, C07.handle, H1.handle, C04.handle, C05.handle, C06.handle, C08.handle, C09.handle, C10.handle, C11.handle, C12.handle, C13.handle, C14.handle, C15.handle, C16.handle, C18.handle, C19.handle, C20.handle]
+def handlers : List Handler := [C17.handle, C17u.handle, C17x.handle, C07.handle, H1.handle, C01Net.handle, C04.handle, C05.handle, C06.handle, C08.handle, C09.handle, C10.handle, C11.handle, C12.handle, C13.handle, C14.handle, C15.handle, C16.handle, C18.handle, C19.handle, C20.handle]
 
 def dispatch (args impl : List String) : Option Result :=
   handlers.firstM (fun h => h args impl)
